@@ -20,7 +20,8 @@ impl Table {
     pub fn qk(&self, t: &str) -> &'static str { match (t, self.alt) { ("k1", false) => "q", ("k1", true) => "name", ("k2", false) => "page", _ => "id" } }
     pub fn qv(&self, t: &str) -> (&'static str, &'static str) {
         match (t, self.alt) { ("v1", false) => ("1", "1"), ("v1", true) => ("ohkami", "ohkami"), ("ve", false) => ("a%26b%3D", "a&b="), ("ve", true) => ("%e7%8b%bc", "狼"),
-                              ("vq", false) => ("a=b", "a=b"), ("vq", true) => ("x==%3D=y", "x====y"), _ => ("", "") }
+                              ("vq", false) => ("a=b", "a=b"), ("vq", true) => ("x==%3D=y", "x====y"),
+                              ("vh", false) => ("what?", "what?"), ("vh", true) => ("/login?next=/home", "/login?next=/home"), _ => ("", "") }
     }
     pub fn hname(&self, n: &str) -> &'static str {
         match n { "Host" => "Host", "Accept" => "Accept", "CT" => "Content-Type", "XA" => "X-Request-Id", "XB" => "X-Custom-Flag", "CL" => "Content-Length",
@@ -156,7 +157,7 @@ pub fn observe_after(req: &Value, t: &Table, built: &Built, segs: Vec<Vec<u8>>, 
                     for tk in ["s1", "s2", "se"] { if t.seg(tk).1 == x { return tk.to_string() } } format!("?{}", util::clip(x, 12)) }).collect() };
                 let query: Vec<Value> = r.query.iter().map(|(k, val)| {
                     let kt = ["k1", "k2"].iter().find(|tk| t.qk(tk) == k).map(|x| x.to_string()).unwrap_or(format!("?{k}"));
-                    let vt = ["v1", "ve", "e", "vq"].iter().find(|tk| t.qv(tk).1 == val).map(|x| x.to_string()).unwrap_or(format!("?{val}"));
+                    let vt = ["v1", "ve", "e", "vq", "vh"].iter().find(|tk| t.qv(tk).1 == val).map(|x| x.to_string()).unwrap_or(format!("?{val}"));
                     json!([kt, vt]) }).collect();
                 let mut names: Vec<String> = vec![];
                 for h in arr(&req["headers"]) { let n = s(&h["n"]).to_string(); if !names.contains(&n) { names.push(n) } }
@@ -217,7 +218,7 @@ pub fn gen(rng: &mut Rng, i: usize) -> Value {
     let nseg = rng.below(4);
     let segs: Vec<&str> = (0..nseg).map(|_| *rng.pick(&["s1", "s2", "se"])).collect();
     let hasq = rng.chance(1, 2);
-    let query: Vec<Value> = if hasq { (0..rng.below(4)).map(|_| json!([*rng.pick(&["k1", "k2"]), *rng.pick(&["v1", "ve", "e", "vq"])])).collect() } else { vec![] };
+    let query: Vec<Value> = if hasq { (0..rng.below(4)).map(|_| json!([*rng.pick(&["k1", "k2"]), *rng.pick(&["v1", "ve", "e", "vq", "vh"])])).collect() } else { vec![] };
     let hl = [("Host", "canon", "v1"), ("Host", "lower", "v2"), ("Accept", "mixed", "v1"), ("Accept", "upper", "v2"), ("Accept", "canon", "vl"), ("CT", "canon", "vs"), ("CT", "mixed", "v1"),
               ("XA", "canon", "v1"), ("XA", "canon", "v2"), ("XA", "lower", "v2"), ("XB", "mixed", "vl"), ("XB", "upper", "vs"), ("XA", "upper", "vs"), ("Host", "mixed", "vs"),
               ("XB", "canon", "v0"), ("Accept", "lower", "v0"), ("Via", "canon", "v0"), ("User-Agent", "upper", "v1"), ("User-Agent", "mixed", "v2"), ("If-None-Match", "mixed", "v2"), ("Sec-WebSocket-Key", "upper", "v1"), ("Referer", "lower", "vs"), ("Via", "upper", "v1"), ("TE", "lower", "v1")];
